@@ -215,7 +215,7 @@ pub fn c06(ctx: &Ctx) -> PropResult {
     }
     // the end of the input ends the last statement like a newline does: every construct with a brace-less body as the
     // very last thing, ending in nothing, a blank, a comment, `;` - against the same text with a final newline
-    for last in ["PROCEDURE g() RETURN 5", "PROCEDURE g() RETURN", "EXPORT PROCEDURE g() RETURN 5", "IF (TRUE) x <- 1", "REPEAT 2 TIMES x <- x + 1", "FOR EACH e IN [1] x <- e", "IF (FALSE) x <- 1 ELSE x <- 2", "PROCEDURE g() IF (TRUE) RETURN 1", "REPEAT UNTIL (TRUE) x <- 1", "PROCEDURE g() { RETURN 5 }", "REPEAT 1 TIMES BREAK", "REPEAT 1 TIMES CONTINUE", "IMPORT MOD \"MATH\"", "DISPLAY(x)", "x <- [1, 2]"] {
+    for last in ["PROCEDURE g() RETURN 5", "PROCEDURE g() RETURN", "EXPORT PROCEDURE g() RETURN 5", "IF (TRUE) x <- 1", "REPEAT 2 TIMES x <- x + 1", "FOR EACH e IN [1] x <- e", "IF (FALSE) x <- 1 ELSE x <- 2", "PROCEDURE g() IF (TRUE) RETURN 1", "REPEAT UNTIL (TRUE) x <- 1", "PROCEDURE g() { RETURN 5 }", "REPEAT 1 TIMES BREAK", "REPEAT 1 TIMES CONTINUE", "IMPORT MOD \"MATH\"", "DISPLAY(x)", "x <- [1, 2]", "y <- 38", "y <- 2.75", "y <- x + 100", "PROCEDURE g() RETURN 55", "y <- \"text\"", "y <- TRUE", "y <- x", "REPEAT 2 TIMES x <- x + 10"] {
         for end in ["", " ", "  // c", ";", " ;", "\t", "\r", " \\\n"] {
             cases.push(Case::new(Kind::Run, format!("x <- 0\n{last}{end}")).tag("layout").tag("layout:end-of-input").aux(format!("x <- 0\n{last}\nDISPLAY(x)\n").replace("\nDISPLAY(x)\n", "\n")));
         }
@@ -346,7 +346,7 @@ pub fn c06(ctx: &Ctx) -> PropResult {
     let stats = run_cases(&ctx.driver, cases, &oracle, &no_known, ctx.threads);
     PropResult {
         stats,
-        rule: format!("{} programs (the repository's tests and examples, generated programs) -> token stream -> {} random admissible renderings each: at every token boundary one of nothing (only next to a bracket or comma), blanks, tab, CR, backslash-newline, and - where the previous token cannot end a statement - newline, CRLF, blank lines or a // comment with non-ASCII text; every terminator as newline, CRLF, comment+newline or ';'; every keyword independently upper or lower case; leading and trailing blank/comment material; implementation-only oracle: same tokens (kinds, literals, text) and same behaviour as the canonical layout; the variant is also run through the model; converse clause: for every token kind a newline (or comment+newline) after it yields a terminator exactly for the kinds of the extracted ender set; the fourth extreme layout leaves out every separator the lexical grammar does not need (a number directly before a word, words next to operators); terminators made of a continuation and comment-only lines; names that begin with a keyword at line starts; fifteen constructs as the very last thing of the input ending in nothing / blank / tab / CR / comment / ; / continuation; a binary minus or a comparison in front of a unary minus; header and body on two lines for headers that end in a statement-ending token", programs.len(), per),
+        rule: format!("{} programs (the repository's tests and examples, generated programs) -> token stream -> {} random admissible renderings each: at every token boundary one of nothing (only next to a bracket or comma), blanks, tab, CR, backslash-newline, and - where the previous token cannot end a statement - newline, CRLF, blank lines or a // comment with non-ASCII text; every terminator as newline, CRLF, comment+newline or ';'; every keyword independently upper or lower case; leading and trailing blank/comment material; implementation-only oracle: same tokens (kinds, literals, text) and same behaviour as the canonical layout; the variant is also run through the model; converse clause: for every token kind a newline (or comment+newline) after it yields a terminator exactly for the kinds of the extracted ender set; the fourth extreme layout leaves out every separator the lexical grammar does not need (a number directly before a word, words next to operators); terminators made of a continuation and comment-only lines; names that begin with a keyword at line starts; fifteen constructs as the very last thing of the input ending in nothing / blank / tab / CR / comment / ; / continuation; a binary minus or a comparison in front of a unary minus; header and body on two lines for headers that end in a statement-ending token; numbers, texts and names as the very last token of the input", programs.len(), per),
         exhaustive: false,
         notes: vec![],
     }
